@@ -361,7 +361,10 @@ def obligations(tier):
         obs.append(XoProb(kind=kind, sizes=[2], msizes=[2], stale=True))
         obs.append(XoProb(kind=kind, sizes=[2], msizes=[2]))
         obs.append(XoProb(kind=kind, sizes=[2, 2], msizes=[2, 1]))
+        # marker panel with the map's marker count but another layout over the chromosomes
+        obs.append(XoProb(kind=kind, sizes=[2, 2], msizes=[3, 1]))
         if tier == "thorough":
+            obs.append(XoProb(kind=kind, sizes=[2, 2], msizes=[1, 3]))
             obs.append(XoProb(kind=kind, sizes=[3, 2], msizes=[2, 2]))
             obs.append(XoProb(kind=kind, sizes=[3], msizes=[3]))
     return obs
